@@ -245,8 +245,19 @@ fn session_with(rt: &tokio::runtime::Runtime, rng: &mut Rng, start: (u64, u64), 
                 let seq = name.split('-').nth(2).and_then(|q| q.parse::<u64>().ok()).unwrap_or(0);
                 let exists = s.objects.contains_key(&format!("{BUCKET}/{key}"));
                 let fault = exists && h.4 < script.max_faults && h.5.below(100) < script.fault_rate;
-                let resp = if fault { h.4 += 1; if h.5.chance(1, 2) { Resp::xml(500, "<Error><Code>InternalError</Code></Error>".into()) } else { Resp::not_found() } } else { get_response(s, BUCKET, &key) };
-                log.lock().expect("log").push(json!({"ev": "get", "vol": vol, "seq": seq, "status": resp.status, "fault": fault}));
+                // transient faults: 500, 404, or a transfer cut short (200 with the full Content-Length announced, connection
+                // closed after part of the body) -- logged as status 599
+                s.cut_body = None;
+                let mut status = None;
+                let resp = if fault {
+                    h.4 += 1;
+                    match h.5.below(3) {
+                        0 => Resp::xml(500, "<Error><Code>InternalError</Code></Error>".into()),
+                        1 => Resp::not_found(),
+                        _ => { let r = get_response(s, BUCKET, &key); if r.body.is_empty() { Resp::not_found() } else { s.cut_body = Some(h.5.below(r.body.len() as u64) as usize); status = Some(599); r } }
+                    }
+                } else { get_response(s, BUCKET, &key) };
+                log.lock().expect("log").push(json!({"ev": "get", "vol": vol, "seq": seq, "status": status.unwrap_or(resp.status), "fault": fault}));
                 Some(resp)
             })));
         }
